@@ -233,6 +233,11 @@ def scenarios(rng: random.Random, tier: str) -> list[str]:
         out.append(nodegen.CONFIGS[cfgn] + f" | start inp,inp | {req} | conn 0 ok | {req} | tick")
         out.append(nodegen.CONFIGS[cfgn] + f" | start ok,ok | rx 0 " + nodegen.cea(5010, "peer1.x", 2001, 268435464) + f" | {req} | tick")
         out.append(nodegen.CONFIGS[cfgn] + f" | start ok,ok | acc | {req} | rx 2 " + nodegen.cer("peer1.x", "4", 7001, 7002) + f" | {req} | tick")
+    # more than the statistics window (1000 s) between two connections of one peer: the second exchange is answered
+    # like the first (one CEA 2001, ready)
+    for gap in (999, 1001, 2500):
+        out.append(nodegen.CONFIGS["basic"] + " | start | acc | rx 0 " + nodegen.cer("peer1.x", "4", 7101, 7102) + " | rx 0 " + nodegen.dwr(7103, 7104) +
+                   f" | eof 0 | tick | adv {gap} | tick | acc | rx 1 " + nodegen.cer("peer1.x", "4", 7105, 7106) + " | rx 1 " + nodegen.dwr(7107, 7108) + " | tick")
     # (lines of the implementation that tools/implcov.py showed no scenario reached)
     # a CEA announcing its applications inside Vendor-Specific-Application-Id AVPs only / as well
     for extra in (",vauth=4", ",vacct=3", ",vauth=4+99,vacct=3", ",vauth=99"):
